@@ -161,6 +161,7 @@ func main() {
 			extra["thorough"] = runThorough(w, *repo, dir, id, *tier == "thorough")
 			if *tier == "thorough" {
 				extra["seeded_changes"] = runSeeds(*repo, *verif, id)
+				extra["benign_refactorings"] = runBenign(*repo, *verif, id)
 			}
 		}
 		total, okN, bad, und, kn, _ := rep.counts()
